@@ -65,7 +65,7 @@ SOURCES = {
         "v5": _c14(cdecl="counter c by j"),
         "v6": BROKEN,
     },
-    "C26": {"v1": _c26(1), "v2": _c26(2), "bad": BROKEN},
+    "C26": {"v1": _c26(1), "v2": _c26(2), "bad": BROKEN, "unread": ""},      # unread: the harness makes a dangling symlink
     "C06": {
         "cint": _c06(), "cint+": _c06(tail="# touched\n"),
         "cflt": _c06(mstmt="m[$1] += 1.0"), "cflt+": _c06(mstmt="m[$1] += 1.0", tail="# touched\n"),
